@@ -34,6 +34,9 @@ func genC11(seed uint64, run int, tier string) Scenario {
 			// writes a login secret (redacted) to a gate in front of the device
 			sc.OnOpenAcquire = false
 			sc.PlatLogin = genSecret(r, "lg-")
+			if r.IntN(5) == 0 {
+				sc.PlatLogin = word(r, "123456789", 10, 14) // an unquoted PIN
+			}
 			gate := &peer.Mode{Name: "gate", Prompt: "Password: ", NoEcho: true, Cmds: map[string]*peer.Reply{sc.PlatLogin: {Next: sc.Dev.Start}}}
 			gate.Default = &peer.Reply{Out: []peer.Tok{{S: "% Login invalid"}}, Next: "gate"}
 			gate.Empty = gate.Default
